@@ -12,7 +12,7 @@ from props import common
 ID = "C06"
 LEVEL = "exploration"
 SIDECARS = ["contracts.intervals"]
-TARGETS = ["TransEquation.make_eager_inputs", "TransEquation.make_interval"]
+TARGETS = ["TransEquation.make_eager_inputs", "TransEquation.make_interval", "SBlock.__init__", "SBlock.add"]
 TECHNIQUE = ("bounded run-time contract on the real entry point: ast.parse + flow-sensitive definite-assignment analysis "
              "of the emitted text against the user-supplied name set derived from the specification alone; def/use summaries "
              "(SMT) of the two translator functions that bind and read the interval variables of a projected rank")
